@@ -202,6 +202,26 @@ Stub(kind, b, t, a, rs, via) ==
     /\ UNCHANGED <<phr, lg>>
     /\ Log([op |-> kind, b |-> b, t |-> t, a |-> a, rs |-> rs, via |-> via, obs |-> Obs(exp', phr'), panic |-> ""])
 
+\* handle.When(a).Return(<a value of another size>): TWO calls.  When(a) is well-formed: on a handle without a When object it
+\* creates one (no default, no registered condition yet) and installs it - the target is mocked from then on; on a handle
+\* that has one it only selects the condition being built.  The Return that follows is rejected (panic) BEFORE the condition
+\* is registered: nothing else changes, and a later When(a).Return(good) must behave as if the rejected call had not been made.
+WhenBad(b, t, a, via) ==
+    /\ "WhenBad" \in Ops /\ CanUse(b, t, via)
+    /\ LET m == Handle(b, t, via) IN
+       IF m.when = None
+       THEN LET w == [def |-> None, conds |-> <<>>, cur |-> "cond"] IN
+            LET pr == PatchRec(t, MfFv(b, t)) IN
+            /\ entry' = pr.entry /\ patches' = pr.patches
+            /\ ph' = [ph EXCEPT ![t] = IF m.origin THEN "T" ELSE @]
+            /\ mk' = [mk EXCEPT ![b][t] = [m EXCEPT !.imp = [k |-> "mf"], !.guard = pr.guard, !.when = w, !.canceled = FALSE]]
+       ELSE /\ mk' = [mk EXCEPT ![b][t] = [m EXCEPT !.when.cur = "cond"]]
+            /\ UNCHANGED <<entry, patches, ph>>
+    /\ LET e == exp[t] IN
+       Instruct(b, t, IF e.k \in {"stub", "free"} THEN e ELSE [k |-> "stub", def |-> None, conds |-> <<>>])
+    /\ UNCHANGED <<phr, lg>>
+    /\ Log([op |-> "WhenBad", b |-> b, t |-> t, a |-> a, via |-> via, obs |-> Obs(exp', phr'), panic |-> "rejected"])
+
 \* handle.Cancel() (the lookup may create a fresh, never applied mocker)
 CancelMk(m) == [m EXCEPT !.when = None, !.origin = FALSE, !.canceled = TRUE]
 Cancel(b, t, via) ==
@@ -293,6 +313,7 @@ Next == \/ Finish
               \/ \E t \in T, a \in A : Call(t, a) \/ CallPh(t, a)
               \/ \E n \in {"OpenDebug", "CloseDebug", "OpenTrace", "CloseTrace"} : LogOp(n)
               \/ \E b \in B, t \in T, k \in MistakeKinds : Mistake(b, t, k)
+              \/ \E b \in B, t \in T, a \in A, via \in Vias : WhenBad(b, t, a, via)
 
 Spec == Init /\ [][Next]_vars
 
